@@ -21,6 +21,9 @@ def obligations(tier):
                       timeout=300, tier="quick" if P == 64 else "thorough", replay="model", family="guarded-malloc",
                       desc="size >= SIZE_MAX - 4 pages => NULL/ENOMEM; sodium_free(NULL) is a no-op",
                       bounds="all 64-bit sizes above the limit"))
+    obs.append(Ob("malloc-os-refuses", "C17/malloc.c", stubs=STUBS, defs={"P": 64, "MODE": 2}, unwind=20, timeout=300, replay="model", family="guarded-malloc",
+                  desc="mmap refused => sodium_malloc / sodium_allocarray return NULL with ENOMEM, nothing mapped; sodium_free(NULL) is a no-op",
+                  bounds="page size 64, size symbolic 0..3P+1"))
     counts = [0, 1, 2, 3, 5, 7, 16, 255, 256, 65537, (1 << 31) + 1, 1 << 32, (1 << 32) + 1, (1 << 63) - 1, 1 << 63, (1 << 64) - 1]
     for c in counts:
         obs.append(Ob("allocarray-count%d" % c, "C17/allocarray.c", units=["sodium/utils.c"], stubs=STUBS,
